@@ -296,6 +296,13 @@ theorem hit_flowK (cfg : Cfg) (s : S α) (src tgt : Int) : FlowK s (hit cfg s sr
   rw [ha, hi]
   simp [step]
 
+theorem counters_flowK (cfg : Cfg) (s : S α) (src : Int) (tg : List Int) : FlowK s (counters cfg s src tg) := by
+  unfold counters
+  refine FlowK.foldl _ (fun s t => ?_) _ _
+  split
+  · exact hit_flowK cfg s t src
+  · exact FlowK.refl s
+
 theorem attack_flow (cfg : Cfg) (s : S α) (src : Int) (tg : List Int) (ty : Nat) :
     Flow s (attack cfg s src tg ty) := by
   unfold attack
@@ -303,15 +310,19 @@ theorem attack_flow (cfg : Cfg) (s : S α) (src : Int) (tg : List Int) (ty : Nat
   · exact Flow.refl s
   · simp only []
     refine Flow.trans (s' := if s.inAttack.isNone && qualified ty then
-        emit { s with inAttack := some (src, ty) } (.attackStart src ty) else s) ?_
+        emit { counters cfg s src tg with inAttack := some (src, ty) } (.attackStart src ty) else s) ?_
       (FlowK.foldl _ (fun s t => hit_flowK cfg s src t) _ _).1
     split
     · rename_i hc
+      have hck := counters_flowK cfg s src tg
+      refine Flow.trans hck.1 ?_
+      have hn0 : s.inAttack = none := by
+        cases hia : s.inAttack <;> simp_all
+      generalize counters cfg s src tg = s at hck ⊢
       refine ⟨rfl, rfl, rfl, ?_⟩
       intro st base hs hb hok
       unfold Ok at *
-      have hn : s.inAttack = none := by
-        cases hia : s.inAttack <;> simp_all
+      have hn : s.inAttack = none := by rw [hck.2]; exact hn0
       rw [mon_emit]; change (mon s).bind _ = _; rw [hok, hn]
       cases base with
       | nil => simp [step, hs, atkStack, emit]
